@@ -148,8 +148,48 @@ def env():
     return _env
 
 
+KINDS_HW = [
+    # module shape "simulated hardware": p and q live in a controller that loses them at a power cycle (factory values
+    # after every start and before loadParameters()); every write method makes the controller report its settings back
+    ('hw', ('double', 0.0, 10.0, None, None)),
+]
+
+
+def _hw_attrs(P, spec):
+    from frappy.datatypes import IntRange
+    factory = {'p': T.build(spec).default, 'q': 2}
+
+    def __init__(self, *args):
+        self.hw = dict(factory)     # the hardware was power cycled
+        P.PersistentMixin.__init__(self, *args)
+
+    def power_cycle(self):
+        self.hw = dict(factory)
+
+    def hw_set(self, name, value):
+        if name in self.hw:
+            self.hw[name] = value
+
+    def write_p(self, value):
+        self.hw['p'] = value
+        self.read_q()               # the controller reports its settings back
+        return value
+
+    def write_q(self, value):
+        self.hw['q'] = value
+        self.read_p()
+        return value
+
+    return {
+        '__init__': __init__, 'power_cycle': power_cycle, 'hw_set': hw_set,
+        'q': P.PersistentParam('q', IntRange(0, 9), default=2, readonly=False, persistent='auto'),
+        'read_p': lambda self: self.hw['p'], 'read_q': lambda self: self.hw['q'],
+        'write_p': write_p, 'write_q': write_q,
+    }
+
+
 class Kind:
-    def __init__(self, name, spec):
+    def __init__(self, name, spec, hw=False):
         e = env()
         P = e['P']
         from frappy.modules import Module
@@ -165,6 +205,8 @@ class Kind:
             'n': Parameter('n', IntRange(0, 9), default=0, readonly=False),
             'write_p': lambda self, value: value,
         }
+        if hw:
+            attrs.update(_hw_attrs(P, spec))
         self.cls = type('M_' + name, (P.PersistentMixin, Module), attrs)
         # two client (wire) and two driver (native) values, different from the default and from each other
         def complete(vals):     # configured struct values must name every member (that is C10's business, not ours)
@@ -205,6 +247,9 @@ def kinds(tier=None):
     for name, spec in table:
         if name not in e['kinds']:
             e['kinds'][name] = Kind(name, spec)
+    for name, spec in KINDS_HW:
+        if name not in e['kinds']:
+            e['kinds'][name] = Kind(name, spec, hw=True)
     return e['kinds']
 
 
@@ -433,12 +478,17 @@ class Scenario:
             if rep[0] != 'changed':
                 o['msg'] = str(rep[2])
         elif what == 'driver':
-            setattr(m, step[1], 7 if step[1] == 'q' else K.drv[step[2]])
+            value = 7 if step[1] == 'q' else K.drv[step[2]]
+            if hasattr(m, 'hw_set'):
+                m.hw_set(step[1], value)     # the driver reads this value from its hardware
+            setattr(m, step[1], value)
         elif what == 'save':
             m.saveParameters()
         elif what == 'init':
             m.writeInitParams()
         elif what == 'load':
+            if hasattr(m, 'power_cycle'):
+                m.power_cycle()              # loadParameters() is what a driver calls when it detects a power cycle
             m.loadParameters()
         elif what == 'reset':
             rep = node.request(conn, 'do m:_factory_reset')
@@ -564,11 +614,22 @@ class HistoryCheck:
             allowed = {prev, content(o['image'])}
             prev = content(o['image'])
             self.allowed[lab] = allowed
+        # a snapshot written between two saves of one step counts as "previous or new" only by value: a restart on it
+        # must give what a restart on the snapshot before or after the step gives (e.g. never the factory value a
+        # power-cycled controller reports while the stored values are still being written back)
+        self.foreign = {}    # label -> {intermediate content that restores neither the old nor the new values}
+        after = {o['label']: content(o['image']) for o in self.obs}
         for op_index, _kind, lab, imgs, nopen in self.tr.points:
             if nopen == 0 and lab in self.allowed:
                 c = content(imgs[0][2])
-                if parse(c)[0] == 'object':
+                if c in self.allowed[lab] or c in self.foreign.get(lab, ()) or parse(c)[0] != 'object':
+                    continue
+                rc = self.rec_plain(clean_image(c))
+                ends = [self.rec_plain(clean_image(e)) for e in (self.before[lab], after[lab])]
+                if any(same_rec(rc, e) for e in ends):
                     self.allowed[lab].add(c)
+                else:
+                    self.foreign.setdefault(lab, {})[c] = (rc, ends)
         return True
 
     # ---- S3 along the fault-free history
@@ -598,11 +659,35 @@ class HistoryCheck:
             return      # judged by check_due / the crash checks
         ok = same_vals(rec[1], o['vals'])
         part.outcomes[f'load:{"restored" if ok else "NOT-restored"}'] += 1
+        if self.cfgvar == 'given':
+            self.check_load_precedence(o)
         if not ok:
             diff = [x for x in PERS if not same_vals(rec[1], o['vals'], (x,))]
             part.violation(f'C17:loadParameters:{self.kind}:parameter-not-restored', self.case(check='clean'),
                            f'{self.describe()}: after loadParameters() in step {o["label"]} with file {data!r} the module holds '
                            f'{o["vals"]!r}; a node started on that file holds {rec[1]!r} (differs in {diff})')
+
+    def check_load_precedence(self, o):
+        """S4 within a run: a reload must not bring back the value stored BEFORE this start-up for a configured parameter
+        (unless this run itself assigned that value again)"""
+        part = self.part
+        old = self.rec_plain(self.img0)
+        cfgd = self.rec_same(EMPTY)
+        if old[0] != 'ok' or cfgd[0] != 'ok' or parse(content(self.img0))[0] != 'object':
+            return
+        part.traces += 1
+        x = 'p'
+        stale = old[1][x]
+        legit = [cfgd[1][x]] + [q['vals'][x] for q in self.obs[1:o['label']]
+                               if 'vals' in q and (q['step'][0] == 'reset' or q['step'][:2] in (['client', x], ['driver', x]))]
+        bad = o['vals'][x] == stale and not any(stale == v for v in legit)
+        part.outcomes[f'load:configured-{"still-wins" if not bad else "LOST"}'] += 1
+        if bad:
+            part.violation('C17:precedence:loadParameters:value-stored-before-start-up-overrides-configured',
+                           self.case(check='clean'),
+                           f'{self.describe()}: {x} is configured as {cfgd[1][x]!r}, the file held {stale!r} before this start-up; '
+                           f'after loadParameters() in step {o["label"]} the module holds {o["vals"][x]!r} although nothing in '
+                           f'this run assigned it (values assigned: {legit!r})')
 
     def check_due(self, o, fault):
         """the file must now equal the current values.  fault: None or (op, content of the file before the fault)"""
@@ -668,6 +753,12 @@ class HistoryCheck:
         part.traces += 1
         allowed = self.allowed[cc.label]
         data = content(cc.image)
+        if data in self.foreign.get(cc.label, ()):
+            rc, ends = self.foreign[cc.label][data]
+            return ('target-intermediate-snapshot', (
+                'C17:crash:before-@:target-intermediate-snapshot-restores-neither-old-nor-new-values',
+                f'the file holds the complete but intermediate snapshot {data!r}: a restart gives {rc[1:2]!r}; the snapshot '
+                f'before this step gives {ends[0][1:2]!r}, the one after it {ends[1][1:2]!r}'))
         if data not in allowed:
             cls = classify(data, allowed)
             return ('target-' + cls, (f'C17:crash:before-@:target-{cls}',
@@ -1179,7 +1270,7 @@ def restart_class(kind, flag):
     return e[key]
 
 
-def _observe(cfg, image, part):
+def _observe(cfg, image, part, reload=False):
     """start a node on the image; values of all shapes right after construction and after writeInitParams()
     -> ('ok', values at construction, values after init, final image) | ('fail', what, text)"""
     fs = MemFS(image)
@@ -1193,7 +1284,14 @@ def _observe(cfg, image, part):
             v0 = {x: getattr(m, x) for x in SHAPE_NAMES}
             m.writeInitParams()
             v1 = {x: getattr(m, x) for x in SHAPE_NAMES}
-            return ('ok', v0, v1, fs, node, m)
+            v2 = None
+            if reload:
+                try:
+                    m.loadParameters()      # the driver detects a power cycle: nothing was changed in this run
+                    v2 = {x: getattr(m, x) for x in SHAPE_NAMES}
+                except Exception as e:
+                    v2 = e
+            return ('ok', v0, v1, fs, node, m, v2)
         except Exception as e:
             node.close()
             return ('fail', 'exc-after-start:' + type(e).__name__, repr(e))
@@ -1226,7 +1324,7 @@ def check_restart(part, kind, flag, run1, given, equal):
         part.outcomes['restart:run-1-start-refused'] += 1
         part.violation(f'C17:restart:run-1:start-up-{norm(r1[1])}', case, f'{where}: run 1 does not start: {r1[1]} {r1[2]}')
         return
-    _ok, _v0, _v1, fs1, node1, m1 = r1
+    _ok, _v0, _v1, fs1, node1, m1, _v2 = r1
     try:
         with install(fs1):
             exc = None
@@ -1250,8 +1348,8 @@ def check_restart(part, kind, flag, run1, given, equal):
     cfg2 = {'cls': cls}
     for x in given:
         cfg2[x] = {'value': stored_v if equal else other_v}
-    r2 = _observe(cfg2, image1, part)
-    ref = _observe(cfg2, EMPTY, part)
+    r2 = _observe(cfg2, image1, part, reload=True)
+    ref = _observe(cfg2, EMPTY, part, reload=True)
     for r in (r2, ref):
         if r[0] == 'ok':
             r[4].close()
@@ -1262,13 +1360,20 @@ def check_restart(part, kind, flag, run1, given, equal):
         part.violation(f'C17:restart:run-2:start-up-{norm(r2[1])}', case,
                        f'{where}: the restart on {content(image1)!r} fails: {r2[1]} {r2[2]}')
         return
+    if isinstance(r2[6], Exception) or isinstance(ref[6], Exception):
+        exc = r2[6] if isinstance(r2[6], Exception) else ref[6]
+        part.outcomes['restart:run-2-loadParameters-raises'] += 1
+        part.violation(f'C17:restart:run-2:loadParameters-raises-{type(exc).__name__}', case,
+                       f'{where}: loadParameters() after the restart raises {exc!r}')
+        return
     if given and not equal:
         part.nontrivial += 1
     shapes = dict(SHAPES)
     for x in SHAPE_NAMES:
         part.traces += 1
         problem = None
-        for when, held, refv in (('at-construction', r2[1], ref[1]), ('after-writeInitParams', r2[2], ref[2])):
+        for when, held, refv in (('at-construction', r2[1], ref[1]), ('after-writeInitParams', r2[2], ref[2]),
+                                 ('after-loadParameters', r2[6], ref[6])):
             if x in given:
                 if not held[x] == refv[x]:
                     how = 'stored-value-overrides-configured' if held[x] == live[x] else 'configured-value-not-applied'
@@ -1481,10 +1586,11 @@ def run(ctx):
     names = kind_names(ctx.tier)
     A = alphabet()
     only = getattr(ctx, 'only', None) or set()
+    hnames = names + [n for n, _ in KINDS_HW]      # the crash / fault enumerations also run on the simulated-hardware shape
     if not only or 'construct' in only:
-        ctx.pmap(shard_fn, [('construct', k, c) for k in names for c in ('plain', 'given')], name='construct')
+        ctx.pmap(shard_fn, [('construct', k, c) for k in hnames for c in ('plain', 'given')], name='construct')
     if not only or 'history' in only:
-        shards = [('history', k, c, g, first) for k in names for c in ('plain', 'given') for g in ('normal', 'pending')
+        shards = [('history', k, c, g, first) for k in hnames for c in ('plain', 'given') for g in ('normal', 'pending')
                   for first in A if not (g == 'pending' and first == ['init'])]
         ctx.pmap(shard_fn, shards, name='history')
     if not only or 'corrupt' in only:
